@@ -12,6 +12,9 @@ import NflowsModel.Lemmas.RQInverseWhole
 import NflowsModel.Lemmas.StructureExec
 import NflowsModel.Lemmas.StructureExecRQ
 import NflowsModel.Lemmas.ARWhole
+import NflowsModel.Lemmas.TailsWhole
+import NflowsModel.Lemmas.QuadInverseWhole
+import NflowsModel.Lemmas.StructureExecQuad
 /-!
 # C02 — inverse undoes forward (both orders) and returns the negated log-abs-det
 
@@ -283,5 +286,50 @@ theorem exec_made_affine_roundtrip (e : Float → ℝ) (c : ElCfg) (hk : c.kind 
        inv.err = none ∧ fwd.err = none ∧ fwd.out = x
         ∧ (∀ b, b < B → fwd.ld[b]? = (inv.ld[b]?).map (fun l => -l))) :=
   NF.ARWhole.made_affine_roundtrip_real e c hk he a n hbuild hmult W bias B ctxv g x hx
+
+/-! ## more whole programs: RQ with tails on all of ℝ, the quadratic pair, quadratic coupling layers -/
+
+/-- **End to end, RQ with linear tails: both round trips and the log-det law for EVERY real input** -/
+theorem rq_tails_program_roundtrip (e : Float → ℝ) (tb minW minH minD beta : Float) (uw uh ud : List ℝ)
+    (hv : TailsWhole.RQTailsValid e tb minW minH minD beta uw uh ud) :
+    (∀ x, TailsWhole.invT e tb minW minH minD beta uw uh ud (TailsWhole.valT e tb minW minH minD beta uw uh ud x) = x) ∧
+    (∀ y, TailsWhole.valT e tb minW minH minD beta uw uh ud (TailsWhole.invT e tb minW minH minD beta uw uh ud y) = y) ∧
+    (∀ y, TailsWhole.invLdT e tb minW minH minD beta uw uh ud y
+        = - TailsWhole.ldT e tb minW minH minD beta uw uh ud (TailsWhole.invT e tb minW minH minD beta uw uh ud y)) :=
+  ⟨TailsWhole.invT_valT hv, TailsWhole.valT_invT hv, TailsWhole.invLdT_eq_neg_ldT hv⟩
+
+/-- **End to end, quadratic spline, both shapes of `uh`**: both round trips on the closed boxes (knots and flat bins — the
+    `hl = hr`, `a = 0` case of finding F2 — included) and the negated log-det, with no hypothesis on `boxLog` -/
+theorem quad_program_roundtrip (e : Float → ℝ) (c : QCfg) (uw uh : List ℝ)
+    (hv : QuadWhole.QuadValid e c uw uh ∨ QuadWhole.QuadValidT e c uw uh) :
+    (∀ y, e c.box.bottom ≤ y → y ≤ e c.box.top → QuadWhole.val e c uw uh (QuadInverseWhole.inv e c uw uh y) = y) ∧
+    (∀ x, e c.box.left ≤ x → x ≤ e c.box.right → QuadInverseWhole.inv e c uw uh (QuadWhole.val e c uw uh x) = x) ∧
+    (∀ y, e c.box.bottom ≤ y → y ≤ e c.box.top →
+        QuadInverseWhole.invLd e c uw uh y = - QuadWhole.ld e c uw uh (QuadInverseWhole.inv e c uw uh y)) := by
+  rcases hv with hv | hv
+  · exact ⟨QuadInverseWhole.val_inv hv, QuadInverseWhole.inv_val hv, QuadInverseWhole.invLd_eq_neg_ld hv⟩
+  · exact ⟨QuadInverseWhole.val_inv_T hv, QuadInverseWhole.inv_val_T hv, QuadInverseWhole.invLd_eq_neg_ld_T hv⟩
+
+/-- executed coupling layers with quadratic elements, bounded and with tails: the per-element hypothesis is discharged -/
+theorem exec_quad_coupling_roundtrip (e : Float → ℝ) (c : ElCfg) (hk : c.kind = "quad") (ht : c.tails = false)
+    (mask : List ℝ) (B S : Nat) (x params uparams uparams' : Array ℝ)
+    (hv : NF.StructureExec.QuadParamsValid e c (transformIdx (NF.realX e) mask).length S params B)
+    (herr : (couplingApply (NF.realX e) c mask B S x params false none uparams).err = none)
+    (hsz : B * mask.length * S ≤ x.size) :
+    let fwd := couplingApply (NF.realX e) c mask B S x params false none uparams
+    let inv := couplingApply (NF.realX e) c mask B S fwd.out params true none uparams'
+    inv.out = x ∧ inv.err = none ∧ inv.condIn = fwd.condIn ∧ ∀ b, b < B → inv.ld[b]? = (fwd.ld[b]?).map (fun l => -l) :=
+  NF.StructureExec.coupling_quad_roundtrip_real e c hk ht mask B S x params uparams uparams' hv herr hsz
+
+theorem exec_quad_tails_coupling_roundtrip (e : Float → ℝ) (c : ElCfg) (hk : c.kind = "quad") (ht : c.tails = true)
+    (hneg : e (-(c.ds.getD 0 0.0)) = - e (c.ds.getD 0 0.0))
+    (mask : List ℝ) (B S : Nat) (x params uparams uparams' : Array ℝ)
+    (hv : NF.StructureExec.QuadTailsParamsValid e c (transformIdx (NF.realX e) mask).length S params B)
+    (herr : (couplingApply (NF.realX e) c mask B S x params false none uparams).err = none)
+    (hsz : B * mask.length * S ≤ x.size) :
+    let fwd := couplingApply (NF.realX e) c mask B S x params false none uparams
+    let inv := couplingApply (NF.realX e) c mask B S fwd.out params true none uparams'
+    inv.out = x ∧ inv.err = none ∧ inv.condIn = fwd.condIn ∧ ∀ b, b < B → inv.ld[b]? = (fwd.ld[b]?).map (fun l => -l) :=
+  NF.StructureExec.coupling_quad_tails_roundtrip_real e c hk ht hneg mask B S x params uparams uparams' hv herr hsz
 
 end Properties.C02
